@@ -26,6 +26,12 @@ func (s *ByteBlockSource) Size() uint64 {
 	return uint64(len(s.Source))
 }
 func (s *ByteBlockSource) ReadBlock(off uint64, sz int) ([]byte, error) {
+	if off >= uint64(len(s.Source)) || sz < 0 {
+		return nil, io.EOF
+	}
+	if off+uint64(sz) > uint64(len(s.Source)) {
+		sz = int(uint64(len(s.Source)) - off)
+	}
 	return s.Source[off : off+uint64(sz)], nil
 }
 
@@ -249,7 +255,13 @@ func (i *tableIter) Next(rec record) (bool, error) {
 // extractBlockSize returns the block size from the block header
 func extractBlockSize(block []byte, off uint64, version int) (typ byte, size uint32, err error) {
 	if off == 0 {
+		if len(block) < headerSize(version) {
+			return 0, 0, fmtError
+		}
 		block = block[headerSize(version):]
+	}
+	if len(block) < 4 {
+		return 0, 0, fmtError
 	}
 
 	if !isBlockType(block[0]) {
@@ -483,7 +495,8 @@ func (r *Reader) seekLinear(tabIter *tableIter, want record) (bool, error) {
 			return false, err
 		}
 		if !ok {
-			panic("read from fresh block failed")
+			// a block without records
+			return false, fmtError
 		}
 		if rec.key() > wantKey {
 			break
